@@ -1590,6 +1590,9 @@ impl Zeroconf {
                 self.resolve_updated_instances(&instance_set);
             }
 
+            // NSEC records are not tied to any listener: just drop the expired ones.
+            self.cache.evict_expired_nsec(now);
+
             // Send out probing queries.
             self.probing_handler();
 
